@@ -275,6 +275,8 @@ def bufs_check(ctx, own, nscripts, nsteps, mc_consts, rule, assumptions):
                 prop = "C02"
             if r["field"] in ("table", "path", "text", "row", "undo") and k in ("e", "b"):
                 prop = "C20"
+            if own == "C03" and isinstance(r.get("expected"), dict) and r["expected"].get("aw") and k in ("q", "e", "b", "wq", "x", "xa"):
+                prop = "C03"        # with autowrite on, leaving a buffer writes it: a divergence there is about the write guards
             if isinstance(r.get("expected"), dict) and r["expected"].get("msg") == "modified":
                 prop = "C02"        # the model refuses (unsaved changes): whatever the editor did instead is a matter of C02
             if r["field"] == "disk":
